@@ -58,6 +58,14 @@ func (prop) Gen(r *core.Rand, tier string) []core.Case {
 		"key f - -", "key f - -", "key f - " + hx("x"), "key m - -", "key m - -", "key m - " + hx("x"),
 		"key f " + hx("ключ") + " " + hx("пароль"), "key f " + hx("ключ") + " " + hx("пароль"), "key f " + hx("ключ") + " " + hx("пароль "),
 		"export f - - 0", "key f " + hx("n2") + " -", "import f " + hx("n2") + " - 0", "key f " + hx("n2") + " -"}})
+	// private keys whose scalar has leading zero bytes (about 1 key in 256 has one): they must be stored, read back,
+	// exported and re-imported like any other — an encoder that drops the leading zeros writes 31 / 30 bytes
+	for k, pk := range []string{"00" + strings.Repeat("7b", 31), "0000" + strings.Repeat("c4", 30), strings.Repeat("00", 31) + "05"} {
+		nm, p := hx(fmt.Sprintf("short%d", k)), hx("pw")
+		cs = append(cs, core.Case{ID: fmt.Sprintf("fix-short-scalar-%d", k), NT: true, Ops: []string{
+			"key f " + nm + " " + p, "importpk f " + nm + " " + p + " " + pk, "key f " + nm + " " + p, "export f " + nm + " " + p + " 0", "key f " + hx("copy") + " " + p,
+			"import f " + hx("copy") + " " + p + " 0", "key f " + hx("copy") + " " + p, "key f " + nm + " " + hx("wrong")}})
+	}
 	for i := 0; i < n; i++ {
 		c := core.Case{ID: fmt.Sprintf("g%d", i)}
 		kd := "f"
